@@ -128,6 +128,12 @@ class FakeChronyd(threading.Thread):
                 rep = bytes(rep)
             elif mode == "short":
                 rep = tracking_reply(data, ref_id=self.ref_id)[:40]
+            elif mode == "badreftime":
+                # a tracking reply whose reference time cannot be a time (nanoseconds field 2e9): on the
+                # pinned tree the polling thread dies on it and the daemon winds down
+                rep = bytearray(tracking_reply(data, ref_id=self.ref_id))
+                struct.pack_into(">iII", rep, 56, -1, 0xFFFFFFFF, 2000000000)
+                rep = bytes(rep)
             elif mode == "errorstatus":
                 # a well-formed reply with the right sequence number that is not tracking data: RPY_NULL, status "unauthorised"
                 rep = bytearray(tracking_reply(data, ref_id=self.ref_id)[:28])
@@ -262,6 +268,11 @@ def c19_life(args, spec, signame):
             want_mode = "errorstatus" if 1.3 <= now < 3.0 else "answer"
             if chronyd.mode != want_mode:
                 chronyd.set_mode(want_mode)
+        elif signame == "DIE":
+            # a worker thread of the daemon dies on the way (chronyd sends a reply it cannot digest): whatever
+            # the daemon writes while winding down, the drift field stays the configured one
+            if now >= 1.6 and chronyd.mode != "badreftime":
+                chronyd.set_mode("badreftime")
         elif not signalled and now >= 1.6 and signame:
             signalled = True
             if p.poll() is None:
